@@ -251,9 +251,10 @@ def explains(broken_item, found):
         return False
     b = broken_item.lower()
     if b.startswith("translator unit") or "case file did not evaluate" in b or "disagree on which" in b \
-            or "was not found in the current environment" in b:
+            or "was not found in the current environment" in b or "translator could not execute" in b:
         return True     # names no specific function: any new concrete violation explains it
-    table = [(("lame",), ("lame_parameters",)),
+    table = [(("module_options", "gen_flow_module"), (".forward",)),
+             (("lame",), ("lame_parameters",)),
              (("ic_units", "ic_zero", "denormalize", "(ic)", "inverse_consistency"), ("inverse_consistency",)),
              (("spacing_divisors", "gen_sd_"), ("spacing", "flow_derivatives")),
              (("gen2_ok", "gen3_ok", "gen_bending", "gen_curvature", "gen_diffusion", "gen_tv", "gen_divergence", "gen_elasticity"),
